@@ -120,6 +120,17 @@ DEFAULT_UNITS = {
 }
 
 
+_TEMP_TOGGLE = [0]
+
+
+def temp_kw(T_kelvin, celsius=None):
+    """temperature= / temperature_unit= keywords for an isotherm at T_kelvin; every other call records it in degrees Celsius."""
+    if celsius is None:
+        _TEMP_TOGGLE[0] += 1
+        celsius = _TEMP_TOGGLE[0] % 2 == 0
+    return {"temperature": T_kelvin - 273.15, "temperature_unit": "°C"} if celsius else {"temperature": T_kelvin, "temperature_unit": "K"}
+
+
 def random_units(r, relative_ok=True, fraction_ok=True):
     pm, pu = r.choice(RU.PRESSURE_REPR if relative_ok else RU.PRESSURE_REPR[:8])
     lreps = RU.LOADING_REPR if fraction_ok else RU.LOADING_REPR[:25]
